@@ -31,7 +31,8 @@ def main():
         print("MC_BigNat:", vlib.parse_tlc_stats(r.stdout))
     # Layer-2 models, small instances (design-level; DESIGN.md 8)
     algo = os.path.join(vlib.VERIF, "algo")
-    for mod, cfg in (("Knuth", "Knuth_small"), ("Redc", "Redc_small"), ("LimbShift", "LimbShift_small"), ("AddMul", "AddMul_small")):
+    for mod, cfg in (("Knuth", "Knuth_small"), ("Redc", "Redc_small"), ("LimbShift", "LimbShift_small"), ("AddMul", "AddMul_small"),
+                     ("MG10", "MG10_2x1_small"), ("MG10", "MG10_3x2_small"), ("MG10", "MG10_recip2_small")):
         meta = os.path.join(vlib.OUT, "algo_" + cfg)
         try:
             r = subprocess.run(vlib.tlc_cmd(mod + ".tla", cfg + ".cfg", meta, workers=8, gc="-XX:+UseParallelGC", xmx="6g"),
